@@ -148,6 +148,65 @@ void harness(void) { ghost_reset(); Handle* p; g_sets = 0; Dtor(p); if (g_sets) 
 '''
     job('Promise.Dtor', b, src, 'Dtor', ['Set'], canaries=2)
 
+    # ---- SharedPromise::Set / ~SharedPromise (same producer contract on the shared word; the walk over the callback stack is unit base_core) --------------------
+    F_SP = 'include/yaclib/async/shared_promise.hpp'
+    WSP = r'class\s+SharedPromise\s+final\s*\{'
+    b = find_body(repo, F_SP, r'void\s+Set\s*\(\s*Args\s*&&\s*\.\.\.\s*args\s*\)\s*&&', 'SharedPromise::Set', within=WSP)
+    pre = [(r'sizeof\.\.\.\(Args\)\s*==\s*0', 'NO_ARGS', 0), (r'_core->Store\(\s*std::in_place\s*\)', 'Store(self->_core, RS_Value, 0)', 0),
+           (r'_core->Store\(\s*std::forward<Args>\(args\)\.\.\.\s*\)', 'Store(self->_core, a_state, a_tag)', 0), (r'std::ignore\s*=', '(void)', 0), (r'auto\s+released\s*=', 'Core* released =', 0),
+           (r'released->template\s+SetResult<false>\(\)', 'SetResult(released)', 0), (r'YACLIB_ASSERT\(Valid\(\)\)', 'REPO_ASSERT(self->_core != 0)', 0)]
+    c = rw('SharedPromise::Set', pre=pre).rewrite(b.text)
+    for noargs in (0, 1):
+        src = COMMON + '#define NO_ARGS %d\n' % noargs + '''void Set(Handle* self, unsigned char a_state, unsigned long a_tag)
+__CPROVER_requires(__CPROVER_is_fresh(self, sizeof(*self)) && self->_core != 0 && g.stores == 0 && g.set_results == 0 && g.decrefs == 0)
+__CPROVER_assigns(self->_core, g.stores, g.t_store, g.clock, g.store_state, g.store_tag, g.set_results, g.t_set_result)
+/* C06 producer: Store(args) precedes the publication, each exactly once; the promise's reference travels into SetResult (released there after the callback walk), the handle is left invalid without a DecRef of its own */
+__CPROVER_ensures(g.stores == 1 && g.set_results == 1 && g.t_store < g.t_set_result && self->_core == 0 && g.decrefs == 0)
+__CPROVER_ensures(NO_ARGS ? (g.store_state == RS_Value) : (g.store_state == a_state && g.store_tag == a_tag))
+{''' + c + '''}
+void harness(void) { ghost_reset(); Handle* p; Set(p, nondet_uint(), nondet_ulong()); VF_CANARY("end"); }
+'''
+        job('SharedPromise.Set.noargs%d' % noargs, b, src, 'Set', ['Store', 'SetResult'])
+    b = find_body(repo, F_SP, r'~SharedPromise\s*\(\s*\)', 'SharedPromise::~SharedPromise', within=WSP)
+    c = rw('~SharedPromise', pre=[(r'Valid\(\)', '(self->_core != 0)', 0), (r'this->Set\(\s*StopTag\{\}\s*\)', 'Set(self, RS_Error, TAG_STOP)', 0)]).rewrite(b.text)
+    src = COMMON + '''unsigned g_sets; unsigned char g_set_state; unsigned long g_set_tag;
+void Set(Handle* self, unsigned char s, unsigned long t) __CPROVER_requires(self->_core != 0) __CPROVER_assigns(g_sets, g_set_state, g_set_tag, self->_core)
+  __CPROVER_ensures(g_sets == OLD(g_sets) + 1 && g_set_state == s && g_set_tag == t && self->_core == 0);
+void Dtor(Handle* self)
+__CPROVER_requires(__CPROVER_is_fresh(self, sizeof(*self)) && g_sets == 0)
+__CPROVER_assigns(g_sets, g_set_state, g_set_tag, self->_core)
+/* a SharedPromise dropped unset fulfils every SharedFuture with StopError - exactly once, and only if it was not used */
+__CPROVER_ensures(OLD(self->_core) != 0 ? (g_sets == 1 && g_set_state == RS_Error && g_set_tag == TAG_STOP) : g_sets == 0)
+__CPROVER_ensures(self->_core == 0)
+{''' + c + '''}
+void harness(void) { ghost_reset(); Handle* p; g_sets = 0; Dtor(p); if (g_sets) VF_CANARY("dropped unset"); else VF_CANARY("was used"); }
+'''
+    job('SharedPromise.Dtor', b, src, 'Dtor', ['Set'], canaries=2)
+    # ---- Share / Split: a fresh contract connected to the source; the returned handle is the contract's future ---------------------------------------------
+    for rel, nm, sig, shared_out in (('include/yaclib/async/share.hpp', 'Share.future', r'Future<V,\s*E>\s+Share\s*\(\s*const\s+SharedFutureBase<V,\s*E>\s*&\s*future\s*\)', 0),
+                                     ('include/yaclib/async/share.hpp', 'Share.future.on', r'FutureOn<V,\s*E>\s+Share\s*\(\s*const\s+SharedFutureBase<V,\s*E>\s*&\s*future\s*,\s*IExecutor\s*&\s*executor\s*\)', 0),
+                                     ('include/yaclib/async/share.hpp', 'Share.promise', r'Future<V,\s*E>\s+Share\s*\(\s*SharedPromise<V,\s*E>\s*&\s*promise\s*\)', 0),
+                                     ('include/yaclib/async/share.hpp', 'Share.promise.on', r'FutureOn<V,\s*E>\s+Share\s*\(\s*SharedPromise<V,\s*E>\s*&\s*promise\s*,\s*IExecutor\s*&\s*executor\s*\)', 0),
+                                     ('include/yaclib/async/split.hpp', 'Split.future', r'SharedFuture<V,\s*E>\s+Split\s*\(\s*FutureBase<V,\s*E>\s*&&\s*future\s*\)', 1)):
+        b = find_body(repo, rel, sig, nm)
+        pre = [(r'static_assert\([^;]*\);', '', 0), (r'auto\s*\[\s*f\s*,\s*p\s*\]\s*=\s*Make(?:Shared)?Contract<V,\s*E>\(\)\s*;', 'Handle f, p; MAKE_CONTRACT(&f, &p, (void*)0);', 0),
+               (r'auto\s*\[\s*f\s*,\s*p\s*\]\s*=\s*Make(?:Shared)?ContractOn<V,\s*E>\(\s*executor\s*\)\s*;', 'Handle f, p; MAKE_CONTRACT(&f, &p, executor);', 0),
+               (r'Connect\(\s*(?:std::move\(future\)|future|promise)\s*,\s*std::move\(p\)\s*\)\s*;', 'CONNECT(src, &p);', 0), (r'return\s+std::move\(f\)\s*;', 'return f._core;', 0),
+               (r'promise\.Valid\(\)', '(src->_core != 0)', 0)]
+        c = rw(nm, pre=pre, refs=[]).rewrite(b.text)
+        src = COMMON + '''Core g_fresh; unsigned g_makes, g_connects; void* g_made_on; Handle* g_conn_src; Core* g_conn_p;
+void MAKE_CONTRACT(Handle* f, Handle* p, void* e) __CPROVER_requires(g_makes == 0) __CPROVER_assigns(g_makes, g_made_on, f->_core, p->_core) __CPROVER_ensures(g_makes == 1 && g_made_on == e && f->_core == &g_fresh && p->_core == &g_fresh);
+void CONNECT(Handle* s, Handle* p) __CPROVER_requires(s->_core != 0 && p->_core != 0 && g_connects == 0) __CPROVER_assigns(g_connects, g_conn_src, g_conn_p, p->_core) __CPROVER_ensures(g_connects == 1 && g_conn_src == s && g_conn_p == OLD(p->_core) && p->_core == 0);
+Core* F(Handle* src, void* executor)
+__CPROVER_requires(__CPROVER_is_fresh(src, sizeof(*src)) && src->_core != 0 && g_makes == 0 && g_connects == 0)
+__CPROVER_assigns(g_makes, g_made_on, g_connects, g_conn_src, g_conn_p)
+/* one fresh contract (on the named executor, if any), its promise connected exactly once to the source (unit connect: attached or fulfilled at once), its future handed out; the source keeps what it had */
+__CPROVER_ensures(g_makes == 1 && g_connects == 1 && g_conn_src == src && g_conn_p == &g_fresh && RET == &g_fresh)
+{''' + c + '''}
+void harness(void) { ghost_reset(); g_makes = g_connects = 0; Handle* s; void* e; F(s, e); VF_CANARY("end"); }
+'''
+        job(nm, b, src, 'F', ['MAKE_CONTRACT', 'CONNECT'])
+
     # ---- FutureBase: ~FutureBase, Detach, Get&&, Get const& ---------------------------------------------------------
     ci_stub = '''/* CallInline drops whatever the callback's Here hands back: only a terminal callback (the Drop core) may be given to it */
 void CallInline(Core* c, Core* cb) __CPROVER_requires(c != 0 && cb == &g_drop_core && g.call_inlines == 0) __CPROVER_assigns(g.call_inlines, g.ci_on, g.ci_cb) __CPROVER_ensures(g.call_inlines == 1 && g.ci_on == c && g.ci_cb == cb);
